@@ -296,6 +296,19 @@ func smallCharRecipe(r *gen.R, maxAlpha, maxLen, maxReq int) spg.CharRecipe {
 				rec.Exclude = spg.Ambiguous
 				rec.ExcludeChars += subsetOf(r, oracle.Chars("2346789"), 3, 6)
 			}
+			if r.Chance(1, 3) { // the Ambiguous class as something allowed or required, not only excluded
+				switch r.Intn(3) {
+				case 0:
+					rec.Allow, rec.Exclude = spg.Ambiguous, 0
+					rec.ExcludeChars = subsetOf(r, oracle.Chars("0O1Il5S"), 2, 4)
+				case 1:
+					rec.Require, rec.Exclude = spg.Ambiguous, 0
+					rec.ExcludeChars = subsetOf(r, oracle.Chars("0O1Il5S"), 3, 5)
+				default:
+					rec.Require, rec.Exclude = spg.Ambiguous|spg.Digits, 0
+					rec.ExcludeChars = "23467890O1"
+				}
+			}
 		}
 		sem := oracle.CharSemOf(rec)
 		if len(sem.Alphabet) <= maxAlpha || try > 200 {
@@ -440,6 +453,8 @@ var wordPools = [][]string{
 	{"élan", "ősz", "ночь", "ωμέγα", "ñandú"},
 	{"re\uFFFDplace", "100%", "a%sb", "'tis", "-ish", "(sic)", "iPhone", "mcDonald", "ſound"},
 	{"e\u0301clair", "ςa", "σa", "אבג", "zero\u200dwidth", "nul\x00l", "ǈx", "ǆx"},
+	{"foo", "foo\r", " foo", "foo ", "bar\n", "bar", "\tbaz", "baz"},
+	{"x-ray", "X-ray", "X-Ray", "o'neil", "O'neil", "O'Neil", "42"},
 }
 
 // wlInput generates an input slice for NewWordList.
